@@ -383,6 +383,7 @@ Inductive op :=
 | OAdd (k j : nat)                               (* h_k = h_k + h_j *)
 | OBulk (k : nat) (pairs : list (T * Z)) (dmin dmax : T)   (* h_k.bulkload(values) *)
 | OLoad (k : nat) (default_cap : nat)            (* h_k = load(dump(h_k)) *)
+| OLoadB (k : nat) (default_cap : nat) (b : list (T * Z)) (mn mx : option T)   (* h_k = load(b, mn, mx) *)
 | OCountAt (k : nat) (x : T)
 | OQuantile (k : nat) (q : T).
 
@@ -412,6 +413,7 @@ Definition exec (e : env) (o : op) : env * obs :=
   | OLoad k dc => upd k (do s <- get e k;
                          match bins s with [] => None                     (* dump() of an empty histogram raises *)
                          | _ => Some (load A dc (bins s) (hmin s) (hmax s)) end)
+  | OLoadB k dc b mn mx => upd k (Some (load A dc b mn mx))
   | OCountAt k x => (e, match get e k with Some s => BAns (count_at A s x) | None => BRaise end)
   | OQuantile k q => (e, match get e k with Some s => BAns (quantile A s q) | None => BRaise end)
   end.
@@ -424,5 +426,5 @@ Fixpoint run_prog (e : env) (p : list op) : list obs :=
 End Prog.
 
 Arguments ONew {T}. Arguments OUpd {T}. Arguments OMerge {T}. Arguments OAdd {T}. Arguments OBulk {T}.
-Arguments OLoad {T}. Arguments OCountAt {T}. Arguments OQuantile {T}.
+Arguments OLoad {T}. Arguments OLoadB {T}. Arguments OCountAt {T}. Arguments OQuantile {T}.
 Arguments BState {T}. Arguments BAns {T}. Arguments BRaise {T}.
